@@ -119,7 +119,7 @@ def gen_step(rng, cell, clocks, vname, at_us, thr, fault_free):
             'root': root, 'via': rng.choice(['global', 'global', 'additional']),
             'gthr': rng.choice([60, 0, 1, 10 ** 6]), 'default_t': rng.chance(1, 8),
             't': t, 'thr': thr, 'chain': chain, 'signer': '%s%d' % (pre, ln),
-            'allowed': rng.choice(['00', '00', '01', '03']), 'flag': '00',
+            'allowed': rng.choice(['00', '00', '01', '03', '80', 'c1']), 'flag': '00',
             'sigfields': {'sigfield%d' % k: rng.bytes(rng.choice([1, 16, 64])).hex()
                           for k in rng.sample(range(1, 9), rng.rng(1, 3))},
             'attack': None, 'faults': []}
@@ -151,7 +151,7 @@ def gen_step(rng, cell, clocks, vname, at_us, thr, fault_free):
     elif a == 'cross_lock':
         step['witness'] = 'chain' if lock == 'single' else 'single'
     elif a == 'bad_flag':
-        step['flag'] = rng.choice(['04', '08', '80'])
+        step['flag'] = rng.choice(['04', '08', '20'])
     if not fault_free:
         if cf == 'step_back_between':
             step['faults'].append({'at_read': rng.rng(1, 2 * ln), 'kind': 'step',
@@ -334,12 +334,14 @@ def execute(plan, run):
         _, stk, _ = real('run_script(witness)', F.run_script, w.bytes)
         items = stk.list()
         # structural expectation on the builder's own output
-        if step['witness'] == 'chain':
-            want_n = 2 * ln + 1
-            run.check('chain_witness_shape', len(items) == want_n and items[-1] == packed[0],
-                      'C14/chain_witness/unexpected_shape', step=i,
-                      detail={'n_items': len(items), 'want': want_n})
         atk = step.get('attack')
+        if step['witness'] == 'chain' and not (len(items) == 2 * ln + 1 and items[-1] == packed[0]):
+            # the transport attacks address items by position; the property does not
+            # prescribe a witness layout, so an unfamiliar one is not a verdict: the
+            # attempt is then made untampered (a wrong builder is caught by the
+            # honest-flow oracle below)
+            run.probe('unfamiliar_witness_layout')
+            atk = None
         akind = 'none'
         if atk:
             akind = atk['kind']
